@@ -24,6 +24,44 @@ use tracing::{debug, debug_span, info, instrument};
 
 type RootSearchResult<T> = Result<T, RootSearchFail>;
 
+/// Verification hook (add-only; compiled only with `--cfg chalk_verif`): a per-thread work
+/// counter ticked at every iteration of the loop in `ensure_root_answer`, with an optional
+/// budget. When the budget is exceeded the tick panics with the payload
+/// `verif-work-budget-exceeded`.
+#[cfg(chalk_verif)]
+pub mod verif {
+    use std::cell::Cell;
+
+    pub const BUDGET_PANIC: &str = "verif-work-budget-exceeded";
+
+    thread_local! {
+        static WORK: Cell<u64> = Cell::new(0);
+        static BUDGET: Cell<u64> = Cell::new(u64::MAX);
+    }
+
+    /// Sets the counter to zero and installs the budget (`None` = unlimited).
+    pub fn reset(budget: Option<u64>) {
+        WORK.with(|w| w.set(0));
+        BUDGET.with(|b| b.set(budget.unwrap_or(u64::MAX)));
+    }
+
+    /// Number of ticks since the last `reset`.
+    pub fn work() -> u64 {
+        WORK.with(|w| w.get())
+    }
+
+    pub(super) fn tick() {
+        let n = WORK.with(|w| {
+            let n = w.get() + 1;
+            w.set(n);
+            n
+        });
+        if n > BUDGET.with(|b| b.get()) {
+            panic!("{}", BUDGET_PANIC);
+        }
+    }
+}
+
 /// The different ways that a *root* search (which potentially pursues
 /// many strands) can fail. A root search is one that begins with an
 /// empty stack.
@@ -508,6 +546,9 @@ impl<'forest, I: Interner> SolveState<'forest, I> {
         self.stack
             .push(initial_table, Minimums::MAX, self.forest.increment_clock());
         loop {
+            #[cfg(chalk_verif)]
+            verif::tick();
+
             let clock = self.stack.top().clock;
             // If we had an active strand, continue to pursue it
             let table = self.stack.top().table;
